@@ -304,7 +304,7 @@ theorem leaf_conjParse {E : Env} {s : String} {b : Bool} (h : LeafMeans E s b) :
   refine ⟨.one (.item n op v false), ?_, ?_, by simp [PySyn, PyAtom, hi]⟩
   · intro f rest hr
     rw [hs]
-    have := (parseSyn_one (f + 1) n op v.toList rest hn hop hv hr).1
+    have := (parseSyn_one (f + 1) n op v.toList rest hn hop (plain_qfree hv) hr).1
     rwa [String.ofList_toList] at this
   · simp [evalSyn, evalSynAcc, evalAtom, he, and?]
 
@@ -318,7 +318,7 @@ theorem two_conjParse {E : Env} {s s' : String} {b b' : Bool} (h : LeafMeans E s
     by simp [PySyn, PyAtom, hi, hi']⟩
   · intro f rest hr
     simp only [String.toList_append, hs, hs', List.append_assoc]
-    have := parseSyn_two f n op v.toList n' op' v'.toList rest hn hop hv hn' hop' hv' hr
+    have := parseSyn_two f n op v.toList n' op' v'.toList rest hn hop (plain_qfree hv) hn' hop' (plain_qfree hv') hr
     rwa [String.ofList_toList, String.ofList_toList] at this
   · simp [evalSyn, evalSynAcc, evalAtom, he, he', and?]
 
